@@ -1,0 +1,32 @@
+//go:build verif
+
+package parser
+
+import (
+	"maps"
+
+	"github.com/xjslang/xjs/token"
+)
+
+// Read-only accessors used by the runtime monitors under /verif.
+// They return copies and change no parser state.
+
+// VerifBuiltinPrecedences returns a copy of the package-level binding-power table.
+func VerifBuiltinPrecedences() map[token.Type]int {
+	return maps.Clone(precedences)
+}
+
+// VerifPrecedences returns a copy of this parser's binding-power table.
+func (p *Parser) VerifPrecedences() map[token.Type]int {
+	return maps.Clone(p.precedences)
+}
+
+// VerifContextStack returns a copy of the parsing-context stack.
+func (p *Parser) VerifContextStack() []ContextType {
+	return append([]ContextType(nil), p.contextStack...)
+}
+
+// VerifExprPrecedence returns the binding power of the expression being parsed.
+func (p *Parser) VerifExprPrecedence() int {
+	return p.currentExpressionPrecedence
+}
